@@ -59,7 +59,7 @@ func scenC16(r *Run) {
 	// preemption points only inside the cluster plugin: that is where calls share state (the failover index), and
 	// concentrating the yields there makes the scheduler's preemptions land in its few narrow windows
 	sim := r.StartSim(verifsim.Config{IdleCap: time.Hour, StepCap: 200000, StallChoices: stalls,
-		GapChoices: []int{0, 1, 1, 1, 2, 2, 3, 5, 8}, PCTSteps: 250}, "rpc/plugins/cluster")
+		GapChoices: smallGaps, PCTSteps: 250}, "rpc/plugins/cluster")
 	switch mode {
 	case "forking", "broadcast":
 		c16Fan(r, sim, mode, sub)
